@@ -710,6 +710,11 @@ func c16EndToEnd(c *Ctx, r *Rng) {
 		// a file: class definitions for every name used, then annotated statements, one annotation each
 		var lines []string
 		lines = append(lines, "---@class People", "---@field pname string", "local People = {}", "---@class Man : People", "local Man = {}", "---@alias Handler fun(a: number): string", "---@generic T", "---@param gp T", "function genericUser(gp) return gp end", "")
+		// half of the files start with a use of an undeclared type: a warning that is not a syntax warning, on a line
+		// before every generated annotation
+		if rr.Fork(0x756e64).Bool() {
+			lines = append(lines, "---@type NoSuchTypeC16", "local undeclaredTyped = nil", "print(undeclaredTyped)", "")
+		}
 		type anno struct {
 			line int
 			cs   c16Case
@@ -759,6 +764,28 @@ func c16EndToEnd(c *Ctx, r *Rng) {
 			h := ""
 			if hv != nil {
 				h = hv.Contents.Value
+			}
+			// another file of the workspace is created and saved: the project-wide annotation check runs again; the
+			// warnings of this file, which nobody touched, stay what they are
+			ws.Write("other16.lua", "local unrelated = 1\nprint(unrelated)\n")
+			srv.Notify("workspace/didChangeWatchedFiles", map[string]interface{}{"changes": []interface{}{map[string]interface{}{"uri": ws.URI("other16.lua"), "type": 1}}})
+			srv.DidOpen(ws.URI("other16.lua"), "local unrelated = 1\nprint(unrelated)\n")
+			ws.Write("other16.lua", "local unrelated = 2\nprint(unrelated)\n")
+			srv.DidSave(ws.URI("other16.lua"), "local unrelated = 2\nprint(unrelated)\n")
+			if srv.Fence() == nil {
+				after := map[int][]string{}
+				for _, d := range srv.View()[ws.URI("anno.lua")] {
+					after[d.Range.Start.Line] = append(after[d.Range.Start.Line], fmt.Sprintf("t%d:%s", d.Type, d.Message))
+				}
+				c.Count("recheck_comparisons", 1)
+				for ln, ms := range byLine {
+					for _, m := range setDiffS(ms, after[ln]) {
+						if strings.HasPrefix(m, "t18:") {
+							c.Report("annotation-warning-lost-after-recheck", fmt.Sprintf("after another file was saved, line %d of the untouched file lost %q", ln, m), map[string]interface{}{"file": text})
+							break
+						}
+					}
+				}
 			}
 			return byLine, h, true
 		}
